@@ -104,6 +104,31 @@ fn run_history(hi: usize, h: &History, specs: &[SchedSpec], stats: &mut Stats, f
             *stats.pos_classes.entry(format!("{class:?}")).or_default() += 1;
         }
     }
+    // reach probes of the workload
+    let mut latest: Vec<Option<&String>> = vec![None; h.uris.len()];
+    for s in &h.steps {
+        match s {
+            Step::Open { doc, text } => latest[*doc] = Some(text),
+            Step::Change { doc, text, earlier } => {
+                latest[*doc] = Some(text);
+                if !earlier.is_empty() {
+                    *stats.step_kinds.entry("probe: didChange with several content changes").or_default() += 1;
+                }
+            }
+            Step::Close { doc } => latest[*doc] = None,
+            Step::Req { doc, line, ch, .. } => {
+                if let Some(t) = latest[*doc] {
+                    if t.contains("zz_wip") {
+                        *stats.step_kinds.entry("probe: request on a text with a not yet referenced rule").or_default() += 1;
+                    }
+                    let on_op = t.lines().nth(*line as usize).and_then(|l| l.encode_utf16().nth(*ch as usize)).is_some_and(|u| "*+?[]()|/^~&<>:;".encode_utf16().any(|o| o == u));
+                    if on_op {
+                        *stats.step_kinds.entry("probe: request exactly on an operator or bracket").or_default() += 1;
+                    }
+                }
+            }
+        }
+    }
     let mut js = JudgeStats { requests_compared: 0, diagnostics_compared: 0, ref_failed: 0, mid_surrogate_skipped: 0, formatting_checked: 0, defref_checked: 0, hover_checked: 0 };
     let mut schedules_here = BTreeSet::new();
     let shape = vcore::hash_str(&serde_json::to_string(&h.steps).unwrap());
